@@ -126,9 +126,10 @@ let () =
            let observed = decode_result out in
            (* outside the length bound A1 the model is not evaluated (see Spec/CaseOk.v, corr_verdict) *)
            let inb = lens_okb c in
-           let modelled = if inb then run_case c else OutOfFuel in
+           let consulted = model_consulted c in
+           let modelled = if consulted then run_case c else OutOfFuel in
            if case_okb c then incr in_scope;
-           let corr = if inb then result_eqb modelled observed else corr_verdict c observed in
+           let corr = if consulted then result_eqb modelled observed else corr_verdict c observed in
            let prop = if do_prop || show_all then prop_verdict c observed else true in
            if show_all then
              Printf.printf "CASE %d corr=%b prop=%b\n  model:    %s\n  expected: %s\n" !total corr prop
